@@ -108,8 +108,12 @@ func addrStrings(as []fbb.Address) []string {
 }
 
 // MsgEvent builds a message through the public API, serialises, parses it back through chunked readers and compares.
+// the bytes Bytes() returned for the previous message (the slice itself, and a copy taken at once): serialising another
+// message must not change them
+var lastRaw, lastCopy []byte
+
 func MsgEvent(b built, desc interface{}, schedules [][]int) rec.Event {
-	ev := rec.Event{"op": "Msg", "desc": desc, "panic": false, "writeErr": false, "parseErr": false, "headersEqual": false, "bodyEqual": false,
+	ev := rec.Event{"op": "Msg", "desc": desc, "earlierBytesStable": true, "panic": false, "writeErr": false, "parseErr": false, "headersEqual": false, "bodyEqual": false,
 		"filesEqual": false, "accessorsEqual": false, "reserialiseEqual": false, "chunkIndependent": true, "tailMatches": false, "hdrOrder": false}
 	func() {
 		defer func() {
@@ -124,6 +128,11 @@ func MsgEvent(b built, desc interface{}, schedules [][]int) rec.Event {
 			return
 		}
 		ev["size"] = len(raw)
+		if lastRaw != nil && !bytes.Equal(lastRaw, lastCopy) {
+			ev["earlierBytesStable"] = false
+		}
+		lastRaw, lastCopy = raw, append([]byte(nil), raw...)
+		raw = lastCopy // everything below works on the bytes as they were when Bytes() returned
 		var first *fbb.Message
 		for si, sched := range schedules {
 			p := new(fbb.Message)
